@@ -288,3 +288,149 @@ def run_c03(rep, tier):
     rep.cov['states'] = done
     rep.cov['transitions'] = done
     rep.cov['states_meaning'] = '(formula, n) pairs decided unsat; each covers every total structure with n states over {p,q}'
+
+
+# ------------------------------------------------------------------ C15
+FAIR_SAFE_UN = ['not %s', 'A X %s', 'E X %s', 'E F %s', 'A G %s']
+FAIR_SAFE_BI = ['(%s and %s)', '(%s or %s)', '(%s --> %s)', 'E(%s U %s)', 'A(%s R %s)']
+FAIR_EG_FORMS = ['E G p', 'A F p', 'A(p U q)', 'E(p R q)', 'A G E G p', 'E F A F q', 'not E G (p or q)', 'E(p U E G q)']
+
+
+def fair_safe_set():
+    at = formulas.ATOMS2
+    l1 = [u % a for u in FAIR_SAFE_UN for a in at] + [b % (x, y) for b in FAIR_SAFE_BI for x in at for y in at]
+    l2 = [u % formulas.par(s) for u in FAIR_SAFE_UN for s in l1[::2]]
+    l2 += [b % (formulas.par(s), a) for b in FAIR_SAFE_BI for s in l1[::3] for a in at[:1]]
+    l2 += [b % (a, formulas.par(s)) for b in FAIR_SAFE_BI for s in l1[1::3] for a in at[1:]]
+    return at + l1 + l2
+
+
+def run_c15(rep, tier):
+    from . import findings
+    rep.assumptions += ['total structures with n<=3 states; |F|<=2 fairness sets (all subsets, symbolic); Boolean constants excluded from formulas (the property does not fix their fair meaning)',
+                        'open known findings D7-D10 (known_findings.json) are excluded by their class predicates and re-found natively on every run; everything outside the classes is decided',
+                        '/repo at fix commit 3d1a560 or later (E R under fairness)']
+    rep.cov['trusted_base'] = TRUSTED
+    rep.cov['explanation'] = ('get_fair_states and CTL/CTLS.modelcheck(K,f,F) executed symbolically with symbolic fairness sets; oracle = Emerson-Lei fair-path semantics with atoms meaning '
+                              '"p and a fair path starts here". Decided: get_fair_states subset-of-fair-states on every input; equality outside class D7; modelcheck == fair semantics outside '
+                              'classes D7/D8; F=[] and F=[S] equal the unconstrained answer outside D7; no exception and K unchanged on every input incl. inside the classes')
+    nk = findings.report_open(rep, 'C15')
+    gone = set(rep.cov.get('findings_not_reproducing', []))
+    d7 = findings.is_open('D7') and 'D7' not in gone
+    d8 = findings.is_open('D8') and 'D8' not in gone
+    d9 = findings.is_open('D9') and 'D9' not in gone
+    d10 = findings.is_open('D10') and 'D10' not in gone
+    # (a) get_fair_states
+    ft = [(2, 0, None), (2, 1, None), (2, 2, None), (3, 0, None), (3, 1, None), (3, 2, None)]
+    ft += [(3, 1, list(p)) for p in itertools.permutations(range(3)) if list(p) != [0, 1, 2]]
+    for t, st, r, secs in pmap(mc.fair_states_task, ft):
+        key = 'get_fair_states n=%d |F|=%d order=%s' % (t[0], t[1], t[2] or 'identity')
+        if st != 'ok':
+            rep.inconclusive('%s: %s' % (key, r))
+            continue
+        rep.encoded_add(r['encoded'])
+        for asp, desc in (('sound', 'result is a subset of the states with a fair path; K unchanged; no exception (every input)'),
+                          ('verdict', 'result == states with a fair path (inputs outside class D7)' if d7 else 'result == states with a fair path (every input)')):
+            v = r[asp] if (asp != 'verdict' or d7) else r['all_inputs_exact']
+            rep.obligation(key + ' ' + asp, v, r['solver_s'] / 2, r['queries'] // 2,
+                           dict(obligation=desc, task=key, verdict=v, audit=r.get('audit'), gates=r['gates']))
+            if v == 'sat':
+                m = r.get('model') if (asp != 'verdict' or d7) else r.get('d7_model')
+                path, out = mc.fair_replay(r, m, 'not (got <= want)' if asp == 'sound' else 'got != want')
+                if path:
+                    rep.violation('%s (%s): %s' % (key, asp, out.strip().splitlines()[-2:]), path)
+                else:
+                    rep.inconclusive('%s: counterexample does not reproduce natively %s' % (key, out[-200:]))
+        if r['twin'] != 'sat':
+            rep.inconclusive('%s: twin %s' % (key, r['twin']))
+    # (b) modelcheck with F
+    safe = fair_safe_set()
+    egs = FAIR_EG_FORMS
+    tasks = []
+    base = dict(ctls_oracle=True, outside_d7=d7)
+    exact_forms = safe + ([] if d8 else egs)
+    for logic in ('CTL', 'CTLS'):
+        base = dict(ctls_oracle=True, outside_d7=d7, assume_all_fair=(logic == 'CTLS' and d10))
+        for nf in (1, 2):
+            tasks += [(logic, 2, ch, dict(base, fair=nf)) for ch in chunks(exact_forms if logic == 'CTL' else exact_forms[::3], 12)]
+        tasks += [(logic, 3, ch, dict(base, fair=1, aps=('p',))) for ch in chunks([x for x in exact_forms if 'q' not in x][::(1 if logic == 'CTL' else 3)], 6)]
+        tasks += [(logic, 2, ch, dict(base, fair=0)) for ch in chunks(exact_forms[::4], 12)]              # F=[]: every path is fair
+        tasks += [(logic, 2, ch, dict(base, fair=1, fair_const=True)) for ch in chunks(exact_forms[::4], 12)]   # F=[S]
+    inside = [('CTL', 2, egs, dict(base, fair=1, only_safety=True)), ('CTLS', 2, egs, dict(base, fair=1, only_safety=True)),
+              ('CTL', 2, egs + safe[:20], dict(base, fair=2, outside_d7=False, only_safety=True))]
+    if d9:
+        inside.append(('LTL', 2, ['A G p', 'A (p U q)'], dict(base, fair=1, outside_d7=False, only_safety=True, expect_typeerror=True)))
+    else:
+        tasks.append(('LTL', 2, ['A G p', 'A (p U q)', 'A F G p', 'A X p'], dict(base, fair=1)))
+    rep.cov['bounds'].update(n='2 (|F| in 0,1,2; atoms p,q) and 3 (|F|=1, atom p)', formulas=len(exact_forms), inside_class_formulas=len(egs),
+                             classes_excluded=[x for x, o in (('D7', d7), ('D8', d8), ('D9', d9), ('D10', d10)) if o])
+    done = 0
+    for t, st, recs, secs in pmap(mc.mc_task, tasks + inside):
+        if st != 'ok':
+            rep.inconclusive('task %s n=%s %s: %s' % (t[0], t[1], t[2][:2], recs))
+            continue
+        only_safety = t[3].get('only_safety')
+        for rec in recs:
+            rec['nfair'] = t[3].get('fair')
+            rec['formula_key'] = rec['formula']
+        if only_safety:
+            for rec in recs:
+                key = '%s n=%d |F|=%s %s (inside a known-finding class: no internal error, K unchanged)' % (rec['logic'], rec['n'], rec['nfair'], rec['formula'])
+                if rec.get('verdict') == 'unsupported':
+                    rep.inconclusive('%s: %s' % (key, rec['error']))
+                    rep.obligation(key, 'unsupported')
+                    continue
+                rep.encoded_add(rec.get('encoded', ()))
+                exc = rec.get('exc', [])
+                v = 'unsat' if rec.get('pure') == 'unsat' and rec.get('unwind') == 'unsat' else 'sat'
+                if t[3].get('expect_typeerror'):
+                    ok = exc == ['TypeError']
+                    rep.obligation(key, 'unsat' if ok and rec.get('pure') == 'unsat' else 'unknown', rec.get('solver_s', 0), rec.get('queries', 0),
+                                   dict(obligation='LTL with F (known finding D9): raises TypeError only, K unchanged', formula=rec['formula'], exc=exc))
+                    continue
+                if rec.get('noexc') != 'unsat':
+                    v = rec.get('noexc')
+                rep.obligation(key, v, rec.get('solver_s', 0), rec.get('queries', 0),
+                               dict(obligation='no internal error and K unchanged on every input (class members included)', formula=rec['formula'], exc=exc,
+                                    verdicts=dict(noexc=rec.get('noexc'), pure=rec.get('pure'))))
+                if rec.get('noexc') == 'sat':
+                    path, out = mc.mcf_replay(rec, rec.get('exc_model') or {})
+                    if path:
+                        rep.violation('%s raises %s: %s' % (key, exc, out.strip().splitlines()[-3:]), path)
+                    else:
+                        rep.inconclusive('%s: exception does not reproduce natively' % key)
+            continue
+        for rec in recs:
+            key = '%s n=%d |F|=%s%s %s' % (rec['logic'], rec['n'], rec['nfair'], ' F=[S]' if t[3].get('fair_const') else '', rec['formula'])
+            if rec.get('verdict') == 'unsupported':
+                rep.inconclusive('%s: %s' % (key, rec['error']))
+                rep.obligation(key, 'unsupported')
+                continue
+            rep.encoded_add(rec.get('encoded', ()))
+            aspects = {a: rec.get(a) for a in ('verdict', 'noexc', 'unwind', 'pure', 'stable')}
+            worst = 'unsat'
+            for a, v in aspects.items():
+                if v != 'unsat':
+                    worst = 'sat' if v == 'sat' else (worst if worst == 'sat' else v)
+            rep.obligation(key, worst, rec.get('solver_s', 0), rec.get('queries', 0),
+                           dict(obligation='modelcheck(K,f,F) == fair semantics' + (' (inputs outside class D7)' if d7 else ''), formula=rec['formula'],
+                                n=rec['n'], nfair=rec['nfair'], verdicts=aspects, oracle=rec.get('oracle'), audit=rec.get('audit')))
+            if worst == 'unsat':
+                done += 1
+            if rec.get('care_sat') != 'sat':
+                rep.inconclusive('%s: assumptions unsatisfiable (vacuous)' % key)
+            for a in ('verdict', 'noexc'):
+                if rec.get(a) == 'sat':
+                    m = rec.get('model') if a == 'verdict' else rec.get('exc_model')
+                    path, out = mc.mcf_replay(rec, m or {})
+                    if path:
+                        rep.violation('%s (%s): %s' % (key, a, out.strip().splitlines()[-4:-1]), path)
+                    else:
+                        rep.inconclusive('%s: counterexample (%s) does not reproduce natively: %s' % (key, a, out[-200:]))
+            for a in ('pure', 'unwind', 'stable'):
+                if rec.get(a) not in (None, 'unsat'):
+                    rep.inconclusive('%s: aspect %s is %s' % (key, a, rec.get(a)))
+    rep.cov['programs'] = len(exact_forms) + len(egs)
+    rep.cov['states'] = max(done, 1)
+    rep.cov['transitions'] = max(done, 1)
+    rep.cov['states_meaning'] = '(logic, formula, n, |F|) combinations decided unsat; each covers every total structure and every F of its bound (outside the listed classes)'
